@@ -23,33 +23,65 @@ TRUSTED = [
 ASSUMES = ["soundness is collision-relative: 'accepted => covers the original tree, or an explicit SHA-256 collision'"]
 
 
-def prune_dag(rng, dag, p):
-    """Replace random proper subtrees by mask-1 pruned branches carrying the real hash/depth. Returns (virtual dag,
-    number of pruned branches)."""
-    objs = cells.build_py(dag)
+def prune_dag(rng, dag, p, start=None, mdepth0=0):
+    """Replace random proper subtrees (of the subtree rooted at `start`) by pruned branches carrying the real level-0
+    hash/depth, computed by the independent reference cells.ref_hd (not by the library).  A hole below j Merkle cells
+    of the tree itself gets mask 1 << (mdepth0 + j): it sits under mdepth0 + j + 1 Merkle cells once the proof cell is
+    on top.  Only subtrees of level 0 are pruned.  Returns (virtual dag, number of pruned branches)."""
+    info = cells.ref_hd(dag)
     out, remap, n = [], {}, 0
+    start = len(dag) - 1 if start is None else start
 
-    def emit(i, root=False):
+    def emit(i, md, root=False):
         nonlocal n
-        if (i, root) in remap:
-            return remap[(i, root)]
+        if (i, md, root) in remap:
+            return remap[(i, md, root)]
         ty, bits, refs = dag[i]
-        if not root and rng.random() < p:
-            out.append(cells.pruned_node(1, [objs[i].get_hash(0)], [objs[i].get_depth(0)]))
+        if not root and md <= 2 and info[i] is not None and info[i][0] == 0 and rng.random() < p:
+            out.append(cells.pruned_node(1 << md, [info[i][1][0]], [info[i][2][0]]))
             n += 1
         else:
+            kids = [emit(r, md + (1 if ty in (3, 4) else 0)) for r in refs]
+            out.append((ty, bits, kids))
+        remap[(i, md, root)] = len(out) - 1
+        return len(out) - 1
+    emit(start, mdepth0, True)
+    return out, n
+
+
+def nested_tree(rng):
+    """an ordinary tree in which one subtree is replaced by a Merkle proof cell over a partly pruned version of it
+    (level-1 pruned branches below the inner proof); the root has level 0"""
+    dag0 = cells.rand_ordinary_dag(rng, rng.choice([3, 5, 8, 12]), max_bits=60, share=0)
+    if len(dag0) < 2:
+        return dag0
+    info0 = cells.ref_hd(dag0)
+    x = rng.randrange(len(dag0) - 1)
+    inner, _ = prune_dag(rng, dag0, rng.choice([0, .3, .6]), start=x)
+    out, remap = [], {}
+
+    def emit(i):
+        if i in remap:
+            return remap[i]
+        if i == x:
+            base = len(out)
+            for ty, bits, refs in inner:
+                out.append((ty, bits, [base + r for r in refs]))
+            out.append(cells.mproof_node(info0[x][1][0], info0[x][2][0], len(out) - 1))
+        else:
+            ty, bits, refs = dag0[i]
             kids = [emit(r) for r in refs]
             out.append((ty, bits, kids))
-        remap[(i, root)] = len(out) - 1
+        remap[i] = len(out) - 1
         return len(out) - 1
-    emit(len(dag) - 1, True)
-    return out, n
+    emit(len(dag0) - 1)
+    return out
 
 
 def proof_dag(rng, dag, p):
     v, n = prune_dag(rng, dag, p)
-    root = cells.build_py(dag)[-1]
-    return v + [cells.mproof_node(root.get_hash(0), root.get_depth(0), len(v) - 1)], root.hash, n
+    info = cells.ref_hd(dag)[-1]
+    return v + [cells.mproof_node(info[1][0], info[2][0], len(v) - 1)], info[1][0], n
 
 
 def py_check_proof(c):
@@ -70,8 +102,11 @@ def run(ctx):
     rng = ctx.rng
     valid, mutated = [], []
     for _ in range(ctx.n(250, 3000)):
-        dag = cells.rand_ordinary_dag(rng, rng.choice([1, 2, 3, 5, 8, 15]), max_bits=100, share=rng.choice([0, .3]))
-        pd, h, npr = proof_dag(rng, dag, rng.choice([0, .2, .5, .9]))
+        if rng.random() < 0.25:
+            dag = nested_tree(rng)       # the tree itself contains a Merkle proof cell: holes below it need mask 0b10
+        else:
+            dag = cells.rand_ordinary_dag(rng, rng.choice([1, 2, 3, 5, 8, 15]), max_bits=100, share=rng.choice([0, .3]))
+        pd, h, npr = proof_dag(rng, dag, rng.choice([0, .2, .5, .9]) if not any(t == 3 for t, _, _ in dag) else rng.choice([.5, .8]))
         valid.append((pd, h.hex(), npr))
         # mutations
         k = rng.random()
@@ -89,7 +124,16 @@ def run(ctx):
         elif k < 0.55:
             ty, bits, refs = pd[-1]
             mutated.append((pd[:-1] + [(-1, bits, refs)], h.hex(), "not-merkle"))
-        elif k < 0.65 and len(pd) > 2:
+        elif k < 0.60 and len(pd) >= 2:
+            # a Merkle UPDATE cell whose first child is the (virtual) tree and whose stored old hash is the expected one:
+            # "a cell that is not a Merkle proof" must be rejected although bytes 1..32 and ref 0 match
+            vinfo = cells.ref_hd(pd[:-1])[-1]
+            if vinfo is not None:
+                extra = (-1, "1", [])
+                einfo = cells.ref_hd([extra])[0]
+                upd = cells.mupdate_node(vinfo[1][0], einfo[1][0], vinfo[2][0], einfo[2][0], len(pd) - 2, len(pd) - 1)
+                mutated.append((pd[:-1] + [extra, upd], h.hex(), "merkle-update-as-proof"))
+        elif k < 0.68 and len(pd) > 2:
             i = rng.randrange(len(pd) - 1)
             ty, bits, refs = pd[i]
             if refs:
@@ -130,6 +174,8 @@ def run(ctx):
         if r != "ok":
             ctx.fail("account-proof:" + r.split(":")[0], r, {"account": r})
     ctx.extra["account_cases"] = na
+    # Model/Proof.check_account_hashes against check_account_proof on the very same cells
+    ctx.correspond_pre("check_account_hashes", [a[0] for a in ACC_CORR], [a[1] for a in ACC_CORR], [a[2] for a in ACC_CORR])
 
 
 # ------------------------------------------------------------------------------------ synthetic shard state
@@ -194,10 +240,35 @@ def account_case(ctx, rng):
     blk = SimpleNamespace(root_hash=block.get_hash(0))
     addr = Address((0, target.to_bytes(32, "big")))
     genuine = accounts[target]
-    try:
-        check_account_proof(proof, blk, addr, genuine)
-    except Exception as e:
-        return f"genuine: genuine account state rejected: {type(e).__name__} {e}"
+    # the same inputs for Model/Proof.check_account_hashes: the two proof roots, a stand-in for the located
+    # ShardAccount cell (only its first reference, the committed account cell, is read) and the claimed state
+    tpr = cells.pruned_node(1, [genuine.get_hash(0)], [genuine.get_depth(0)])
+    sa = Builder().store_ref(Cell(cells.tvm_bits(tpr[1]), [], 1)).end_cell()
+
+    def model_line(claimed, root_hash):
+        index, mdag = {}, []
+
+        def walk(c):
+            key = (c.hash, c.type_)
+            if key in index:
+                return index[key]
+            kids = [walk(r) for r in c.refs]
+            mdag.append((c.type_, c.bits.to01(), kids))
+            index[key] = len(mdag) - 1
+            return len(mdag) - 1
+        ix = [walk(x) for x in (roots[0], roots[1], sa, claimed)]
+        return f"acchashes {root_hash.hex()} {ix[0]} {ix[1]} {ix[2]} {ix[3]} {cells.dag_line(mdag)}"
+
+    def both(name, claimed, root_hash):
+        try:
+            check_account_proof(proof, SimpleNamespace(root_hash=root_hash), addr, claimed)
+            r = "ok"
+        except Exception as e:
+            r = "err " + type(e).__name__
+        ACC_CORR.append((name, r, model_line(claimed, root_hash)))
+        return r
+    if both("genuine", genuine, blk.root_hash) != "ok":
+        return "genuine: genuine account state rejected"
     impostor_n = cells.pruned_node(rng.choice([1, 2, 3, 7]), [genuine.get_hash(0)] * 3, [genuine.get_depth(0)] * 3)
     m = int(impostor_n[1][8:16], 2)
     k = bin(m).count("1")
@@ -205,18 +276,14 @@ def account_case(ctx, rng):
     impostor = Cell(cells.tvm_bits(impostor_n[1]), [], 1)
     other = accounts[rng.choice(ids)] if len(ids) > 1 else Builder().store_uint(1, 2).end_cell()
     for name, claimed in (("impostor", impostor), ("other", other if other.hash != genuine.hash else dummy), ("dummy", dummy)):
-        try:
-            check_account_proof(proof, blk, addr, claimed)
+        if both(name, claimed, blk.root_hash) == "ok":
             return f"{name}: a claimed state whose own hash is not the committed one was accepted"
-        except Exception:
-            pass
-    try:
-        check_account_proof(proof, SimpleNamespace(root_hash=rng.randbytes(32)), addr, genuine)
+    if both("blockhash", genuine, rng.randbytes(32)) == "ok":
         return "blockhash: proof accepted against another block hash"
-    except Exception:
-        pass
-    # model correspondence for the hash comparisons (DAG text of the four cells)
     return "ok"
+
+
+ACC_CORR = []
 
 
 def two_root_boc(roots):
